@@ -202,6 +202,25 @@ let () =
         let (nodes, _) = parse_nodes (drop rest) [] in
         let ex = List.map path_of_hex (split ';' (List.assoc "ex" kvs)) in
         print_endline (cat "," (List.map (fun (p, e) -> hex_of_path p ^ "=" ^ entry_s e) (listing_top ex nodes)))
+     | "OPS" :: rest ->
+        (* OPS S <nodes> E C <cmd> <cmd> ... E    cmd := Mk:<hexpath> | RmF:<hexpath> | RmD:<hexpath> | RmL:<hexpath>:<k> |
+           Lnk:<hexpath>:<k>:<N|U><hextext> | W:<hexpath>:<hexdata>:<mtime|->:<more01>          answer: res=ok,EEXIST,... events=.. fs=.. *)
+        let rec drop = function "S" :: r -> r | _ :: r -> drop r | [] -> failwith "no S" in
+        let (nodes, r) = parse_nodes (drop rest) [] in
+        let r = (match r with "C" :: r -> r | _ -> failwith "no C") in
+        let target_of s = let h = String.sub s 1 (String.length s - 1) in if s.[0] = 'N' then TNorm (unhex h) else TRaw (unhex h) in
+        let cmd_of tok = match String.split_on_char ':' tok with
+          | ["Mk"; p] -> CCreateFolder (path_of_hex p)
+          | ["RmF"; p] -> CDeleteFile (path_of_hex p)
+          | ["RmD"; p] -> CDeleteFolder (path_of_hex p)
+          | ["RmL"; p; k] -> CDeleteSymlink (path_of_hex p, kind_of k)
+          | ["Lnk"; p; k; t] -> CCreateSymlink (path_of_hex p, kind_of k, target_of t)
+          | ["W"; p; d; mt; more] -> CCreateOrUpdateFile (path_of_hex p, unhex d, (if mt = "-" then None else Some (z_of_decimal mt)), more = "1")
+          | _ -> failwith ("cmd " ^ tok) in
+        let cmds = List.map cmd_of (List.filter (fun t -> t <> "E") r) in
+        let (st, res) = doer_ops nodes cmds in
+        Printf.printf "res=%s events=%s fs=%s\n" (cat "," (List.map (function None -> "ok" | Some e -> err_s e) res))
+          (cat "," (List.map event_s st.d_events)) (cat ";" (List.sort compare (List.map node_s st.d_fs)))
      | "NORM" :: h :: _ -> print_endline (target_s (normalize_unix (unhex h)))
      | "SAMETEXT" :: a :: b :: _ -> print_endline (if same_path_text (unhex a) (unhex b) then "1" else "0")
      | _ -> print_endline "BADREQ");
